@@ -74,6 +74,10 @@ def enumerate_cases(tier):
                     for extra in (None, 0, 2):
                         # exhaustive over (sequence, chunks); (merge, expected) fully crossed
                         yield {"mode": "planner", "labels": {"dt": "<i8", "sh": [n], "v": seq}, "chunks": [c], "merge": merge, "exp_extra": extra}
+                    if (ci + n) % 3 == 0 and max(seq) >= 1:
+                        # the same layout with GAPS in the codes (labels that are expected but absent, e.g. empty bins)
+                        gseq = [x if x < 0 else 2 * x + 1 for x in seq]
+                        yield {"mode": "planner", "labels": {"dt": "<i8", "sh": [n], "v": gseq}, "chunks": [c], "merge": (ci % 2 == 0), "exp_extra": 1}
     # 2-D
     for shp in ([2, 2], [2, 3], [3, 2]):
         n = shp[0] * shp[1]
@@ -110,6 +114,11 @@ def planner_cases(draw, tier="quick"):
             codes[i] = -1
     if max(codes) < 0:
         codes[0] = 0
+    if draw(st.booleans()):
+        # gaps: some expected codes never occur (absent labels in the middle of the range)
+        stride = draw(st.sampled_from([2, 3]))
+        off = draw(st.integers(0, 2))
+        codes = [x if x < 0 else stride * x + off for x in codes]
     chunks = [gen.draw_chunks(draw, s, max_blocks=16, styles=["uniform", "uniform", "arbitrary", "ones", "single"]) for s in shp]
     return {"mode": "planner", "labels": {"dt": "<i8", "sh": shp, "v": codes}, "chunks": chunks, "merge": draw(st.booleans()),
             "exp_extra": draw(st.sampled_from([None, 0, 3]))}  # fmt: skip
